@@ -23,6 +23,18 @@ REGISTRY = {
         "require": {"mut:noncanonical:accepted": 20, "mut:wrapdepth:accepted": 5, "mut:wrapdepth:rejected": 5,
                     "mut:lengthfield:rejected": 20, "mut:hostile:rejected": 20},
     },
+    "C05": {
+        "level": "exploration",
+        "claim": "Rapid state machine over the real supervisor with the schedule owned by the harness (commits placed inside the supervisor's load->store window, stale T7 / stale generation events, commits after Close, undrained notifications) checked after every action against a reference E37 model plus the notification chain / no-self / final-state invariants; end-to-end peer scripts (pipelined Select+Deselect, T7, separate, drops, connect racing Close) on real connections inside a virtual-time bubble with State() read at synchronisation points.",
+        "trust": "Assumption A1 (generations are separated in real time); the Go scheduler inside the library is sampled, not enumerated; hook hsms/export_verif.go only aliases unexported code.",
+        "technique": "property-based testing (rapid stateful / model-based) on a step-driven supervisor + scripted-peer histories in testing/synctest",
+        "tests": [
+            {"name": "TestC05Supervisor", "shards": 8, "shards_thorough": 16},
+            {"name": "TestC05Table", "shards": 1},
+            {"name": "TestC05KnownF6", "shards": 1},
+        ],
+        "require": {"in-window-commit": 2000, "stale-event": 1000, "late-commit": 300, "generation-after-close": 200, "coalesced": 5, "multi-generation": 500},
+    },
     "C13": {
         "level": "exploration",
         "claim": 'Generated messages over the stated item grammar x all encoder options round-tripped through the strict encoder and strict parser; parser-accepted texts produced by a grammar-directed text generator re-encoded and re-parsed.',
